@@ -67,6 +67,16 @@ End Planes.
 (* masks of a quantiser rho : pixel -> plane number *)
 Definition qmask {P : Type} (rho : P -> Z) (i : nat) (p : P) : bool := Z.eqb (rho p) (Z.of_nat i).
 
+(* the code compares the quantised depth, a FLOAT tensor rq, with the plane number: mask_i = (rq == i).
+   Whatever expression computes rq (round half even, floor(x + 0.5), ...), only two facts matter:
+   rq p is an integer and it lies in 0..n-1. *)
+Definition rmask {P : Type} (rq : P -> R) (i : nat) (p : P) : bool := Reqb (rq p) (IZR (Z.of_nat i)).
+Definition plane_number_in_range (n : nat) (x : R) : Prop := exists k : Z, x = IZR k /\ (0 <= k < Z.of_nat n)%Z.
+
+(* get_targets: (targets, focus_target, quantised depth / max(1, n-1)) *)
+Definition divider (n : nat) : R := if Nat.eqb (n - 1) 0 then 1%R else INR (n - 1).
+Definition depth_out (n : nat) (q : R) : R := (q / divider n)%R.
+
 (* ------------------------------------------------------------------ 2. quantisers *)
 (* over the reals: round-half-even of depth * (n-1) *)
 Definition quantR (n : Z) (d : R) : Z := ZnearestE (d * IZR (n - 1)).
@@ -142,6 +152,15 @@ Definition focus_of (masks : list (list bool)) (img : list (list Z)) : list (lis
 Definition exec_set_targets (n : nat) (depth : list dy) (img : list (list Z)) :=
   let mk := exec_masks n depth in
   (exec_quant n depth, mk, targets_of mk img, focus_of mk img).
+
+(* the same from OBSERVED plane numbers (whatever quantiser produced them), and the float32 neighbours of
+   fl32(depth * (n-1)): round down, to nearest even, up *)
+Definition exec_from_quant (n : nat) (qs : list Z) (img : list (list Z)) :=
+  let mk := masks_of n qs in (mk, targets_of mk img, focus_of mk img).
+Definition q32Zm (md : mode) (n : Z) (d : f32) : Z :=
+  Btrunc (Bnearbyint (prec_lt_emax_ := Hmax32) md (Bmult (prec_gt_0_ := Hprec32) (prec_lt_emax_ := Hmax32) mode_NE d (Z2B (n - 1)))).
+Definition exec_quant_bounds (n : nat) (depth : list dy) : list (Z * Z * Z) :=
+  map (fun d => (q32Zm mode_DN (Z.of_nat n) (D2B d), q32Zm mode_NE (Z.of_nat n) (D2B d), q32Zm mode_UP (Z.of_nat n) (D2B d))) depth.
 
 Definition exec_slice_masks (ps : list dy) (depth : list dy) : list (list bool) :=
   let fs := map D2B ps in
